@@ -336,4 +336,10 @@ def conforms(I, sort, v):
         return z3.And(*cs) if cs else z3.BoolVal(True)
     if isinstance(sort, Opaque):
         return z3.BoolVal(True)
+    if isinstance(sort, Arr):
+        return z3.BoolVal(isinstance(v, SArr) and v.elem == sort.elem)
+    if isinstance(sort, Seq):
+        return z3.BoolVal(isinstance(v, SSeq) and v.elem == sort.elem)
+    if isinstance(sort, RecList):
+        return z3.BoolVal(isinstance(v, SRecList) and set(v.fields) == set(sort.fields))
     raise Unsupported(f'conformance to sort {type(sort).__name__}')
